@@ -3,15 +3,13 @@
     Timer/SchedWitness.v).  The model (Timer/SchedModel.v) is the per-actor Scheduler of
     internal/actor/scheduler.go on the go-quartz queue, with a virtual clock in milliseconds:
       [run ops init]      the state after the op sequence [ops] (Once / Loop / Cron / Cancel / Clear / Exists
-                          by any actor, termination and restart of any actor, clock steps in any order)
-      [nid s]             the number of scheduling calls so far: the call executed in state s gets this number
+                          by any actors, termination and restart of any actor, clock steps - in any order)
+      [step o s]          (state after op o, its return value); [ROk] = the call returned nil
+      [nid s]             the number of successful scheduling calls so far: the call made in state s gets this number
       [fires_of x s]      the Tells done so far by the job of scheduling call x, oldest first; a [firing] has
                           the instant [f_time], the payload, the receiver and [f_dead] (receiver already
                           terminated: the Tell is a dead letter)
       [OTick dt]          dt ms pass and the quartz loop is responsive; [OStall dt]: dt ms pass without it
-      [spin s]            the quartz loop spins on a SimpleTrigger with interval <= 0 (nothing is modelled
-                          beyond that point; excluded by [loops_positive], see C20_no_spin)
-      [touches k o]       o is a Cancel/Clear/termination/restart whose actor can render the key k
       [removes a ref o]   o is Cancel(ref) / Clear / termination / restart of actor a. *)
 From Coq Require Import List NArith ZArith.
 From stdpp Require Import gmap.
@@ -20,100 +18,71 @@ Local Open Scope Z_scope.
 
 (** ============================== Once ============================== *)
 
-(** never twice and never before the delay - for EVERY op sequence before and after the call (other jobs,
-    colliding keys, stalls, cancellations included) *)
+(** never twice and never before the delay - for EVERY op sequence before and after the call (many jobs per
+    actor, the same reference on other actors, stalls, cancellations included) *)
 Theorem C20_once_at_most_once pre a recv ref d p post :
-  spin (run pre init) = false -> a ∉ dead (run pre init) ->
+  snd (step (OOnce a recv ref d p) (run pre init)) = ROk ->
   (length (fires_of (nid (run pre init)) (run (pre ++ OOnce a recv ref d p :: post) init)) <= 1)%nat.
-Proof. exact (fun H1 H2 => proj1 (thm_once_safety pre a recv ref d p post H1 H2)). Qed.
+Proof. exact (fun H => proj1 (thm_once_safety pre a recv ref d p post H)). Qed.
 
 Theorem C20_once_not_early pre a recv ref d p post f :
-  spin (run pre init) = false -> a ∉ dead (run pre init) ->
+  snd (step (OOnce a recv ref d p) (run pre init)) = ROk ->
   In f (fires_of (nid (run pre init)) (run (pre ++ OOnce a recv ref d p :: post) init)) ->
   now (run pre init) + d <= f_time f.
-Proof. exact (fun H1 H2 => proj2 (thm_once_safety pre a recv ref d p post H1 H2) f). Qed.
+Proof. exact (fun H => proj2 (thm_once_safety pre a recv ref d p post H) f). Qed.
 
 (** cancelled / cleared by its owner, or the owner terminated / restarted, before the firing instant:
     never delivered and no dead letter - for every op sequence *)
 Theorem C20_once_cancelled pre a recv ref d p mid c post :
-  spin (run pre init) = false -> a ∉ dead (run pre init) -> removes a ref c -> elapsed mid < d ->
+  snd (step (OOnce a recv ref d p) (run pre init)) = ROk -> removes a ref c -> elapsed mid < d ->
   fires_of (nid (run pre init)) (run (pre ++ OOnce a recv ref d p :: mid ++ c :: post) init) = [].
 Proof. exact (thm_once_cancelled pre a recv ref d p mid c post). Qed.
 
-(** delivered exactly once, exactly at t0 + d, with the scheduled payload to the scheduled receiver.
-    PARTIAL: besides "not removed before the instant" the statement needs (i) the key path:reference not
-    queued at the time of the call (excludes re-use of a live reference and colliding keys), (ii) no
-    Cancel/Clear/termination/restart of ANY actor that can render the same key before the instant
-    (collisions again), (iii) no stall of the quartz loop before the instant, (iv) a non-negative delay.
-    Each of (i)-(iv) is necessary: see the _refuted theorems below. *)
-Theorem C20_once_delivered_partial pre a recv ref d p post1 dt post2 :
-  spin (run pre init) = false -> a ∉ dead (run pre init) ->
-  tbl (run pre init) !! job_key a ref = None -> 0 <= d ->
-  no_stall post1 -> Forall (fun o => ~ touches (job_key a ref) o) post1 ->
+(** a Once call that returned nil and whose owner does not Cancel(ref) / Clear / terminate / restart before the
+    instant is told exactly once, exactly at t0 + d, with the scheduled payload to the scheduled receiver - for
+    every op sequence [pre] before the call, every [post1] up to the instant (whatever any actor does, the
+    same reference on other actors included) and every [post2] after it.
+    The one remaining exclusion is a STALL of the quartz loop before the instant ([no_stall post1]): see
+    C20_once_refuted_stall. *)
+Theorem C20_once pre a recv ref d p post1 dt post2 :
+  snd (step (OOnce a recv ref d p) (run pre init)) = ROk ->
+  no_stall post1 -> Forall (fun o => ~ removes a ref o) post1 ->
   d <= elapsed post1 + Z.max dt 0 ->
-  spin (run (pre ++ OOnce a recv ref d p :: post1 ++ OTick dt :: post2) init) = false ->
   exists f,
     fires_of (nid (run pre init)) (run (pre ++ OOnce a recv ref d p :: post1 ++ OTick dt :: post2) init) = [f] /\
     f_time f = now (run pre init) + d /\ f_payload f = p /\ f_recv f = recv /\ f_owner f = a /\ f_ref f = ref /\
     (recv ∉ dead (run (pre ++ OOnce a recv ref d p :: post1 ++ OTick dt :: post2) init) -> f_dead f = false).
 Proof. exact (thm_once_delivered pre a recv ref d p post1 dt post2). Qed.
 
-(** (b) REFUTED: a reference that is still queued is used again on the same actor - both calls return nil,
-    the second message is never delivered although nothing was cancelled and nobody died
-    (quartz rejects the equal key with ErrJobAlreadyExists; scheduleJob ignores the error) *)
-Theorem C20_once_refuted_reuse :
-  run_res w_reuse init = [ROk; ROk; RUnit] /\
-  map (fun f => (f_payload f, f_time f)) (fired (run w_reuse init)) = [(1%N, 300)] /\
-  fires_of 1 (run w_reuse init) = [] /\ spin (run w_reuse init) = false.
-Proof. exact wit_reuse. Qed.
-
-(** (a) REFUTED: two different (actor, reference) pairs render the same key: "/a" ":" "b:c" = "/a:b" ":" "c".
-    Actor /a:b's call is silently rejected, its Cancel of its OWN reference returns nil and deletes /a's job:
-    neither message is ever delivered; nobody died, /a cancelled nothing *)
-Theorem C20_once_refuted_collision :
-  (w_a, w_bc) <> (w_ab, w_c) /\ job_key w_a w_bc = job_key w_ab w_c /\
-  run_res w_collision init = [ROk; ROk; ROk; RUnit] /\
-  fired (run w_collision init) = [] /\ spin (run w_collision init) = false /\ dead (run w_collision init) = ∅.
-Proof. exact wit_collision. Qed.
-
-(** ... and the termination of /a:b deletes /a's Loop *)
-Theorem C20_loop_refuted_collision_death :
-  run_res w_collision_death init = [ROk; ROk; RUnit; RUnit] /\ fired (run w_collision_death init) = [] /\
-  is_dead (run w_collision_death init) w_a = false.
-Proof. exact wit_collision_death. Qed.
-
-(** (d) REFUTED: quartz's misfire rule. The loop does not run from 0 to 700 ms (process suspended, CPU
-    starvation): the Once due at 500 is "outdated" by more than 100 ms when the loop gets to it, its
-    RunOnceTrigger has expired, the job leaves the queue without ever firing - and Exists still says true *)
+(** REFUTED without [no_stall] (known finding, third-party rule): quartz's misfire rule. The loop does not run
+    from 0 to 700 ms (process suspended, CPU starvation): the Once due at 500 is "outdated" by more than
+    OutdatedThreshold = 100 ms when the loop gets to it, its RunOnceTrigger has expired, the job leaves the
+    queue without ever firing - and Exists still says true *)
 Theorem C20_once_refuted_stall :
   run_res w_stall init = [ROk; RUnit; RUnit; RBool true] /\ fired (run w_stall init) = [] /\
-  map_to_list (tbl (run w_stall init)) = [] /\ spin (run w_stall init) = false.
+  map_to_list (tbl (run w_stall init)) = [].
 Proof. exact wit_stall. Qed.
 
-(** the same rule for every op sequence: a delay below -100 ms returns nil and never fires *)
-Theorem C20_once_negative_delay_never_fires pre a recv ref d p post :
-  spin (run pre init) = false -> a ∉ dead (run pre init) -> d < - thr ->
-  fires_of (nid (run pre init)) (run (pre ++ OOnce a recv ref d p :: post) init) = [].
-Proof. exact (thm_once_negative pre a recv ref d p post). Qed.
+(** a negative delay is rejected: vivid's illegal-argument error, nothing changes *)
+Theorem C20_once_negative_delay_rejected s a recv ref d p :
+  is_dead s a = false -> d < 0 -> step (OOnce a recv ref d p) s = (s, RIllegalArg).
+Proof. exact (thm_once_negative_rejected s a recv ref d p). Qed.
 
 (** ============================== Loop ============================== *)
 
 (** one delivery per interval, the first at t0 + i, until removed: for every op sequence without a stall the
     delivery instants are an initial segment of t0+i, t0+2i, ... and none lies in the future *)
 Theorem C20_loop_grid pre a recv ref i p post :
-  spin (run pre init) = false -> a ∉ dead (run pre init) -> 0 < i -> no_stall post ->
+  snd (step (OLoop a recv ref i p) (run pre init)) = ROk -> no_stall post ->
   exists m : nat,
     map f_time (fires_of (nid (run pre init)) (run (pre ++ OLoop a recv ref i p :: post) init)) = grid (now (run pre init)) i m /\
     now (run pre init) + Z.of_nat m * i <= now (run (pre ++ OLoop a recv ref i p :: post) init).
 Proof. exact (thm_loop_grid pre a recv ref i p post). Qed.
 
-(** ... and the segment is complete while the job is not removed: exactly the instants t0 + k*i <= now.
-    PARTIAL for the same reasons as C20_once_delivered_partial *)
-Theorem C20_loop_partial pre a recv ref i p post :
-  spin (run pre init) = false -> a ∉ dead (run pre init) ->
-  tbl (run pre init) !! job_key a ref = None -> 0 < i ->
-  no_stall post -> Forall (fun o => ~ touches (job_key a ref) o) post ->
-  spin (run (pre ++ OLoop a recv ref i p :: post) init) = false ->
+(** ... and the segment is complete while the owner does not remove the job: exactly the instants t0 + k*i <= now *)
+Theorem C20_loop pre a recv ref i p post :
+  snd (step (OLoop a recv ref i p) (run pre init)) = ROk ->
+  no_stall post -> Forall (fun o => ~ removes a ref o) post ->
   map f_time (fires_of (nid (run pre init)) (run (pre ++ OLoop a recv ref i p :: post) init)) =
   grid (now (run pre init)) i
        (Z.to_nat ((now (run (pre ++ OLoop a recv ref i p :: post) init) - now (run pre init)) / i)).
@@ -122,41 +91,58 @@ Proof. exact (thm_loop_exact pre a recv ref i p post). Qed.
 (** after Cancel(ref) / Clear / termination / restart by the owner nothing more is told by that job, whatever
     happens later (Once, Loop and Cron alike; no delivery and no dead letter) - for every op sequence *)
 Theorem C20_cancel_stops pre o a recv ref p mid c post :
-  is_sched o a recv ref p -> spin (run pre init) = false -> a ∉ dead (run pre init) -> removes a ref c ->
+  is_sched o a recv ref p -> snd (step o (run pre init)) = ROk -> removes a ref c ->
   fires_of (nid (run pre init)) (run (pre ++ o :: mid ++ c :: post) init) =
   fires_of (nid (run pre init)) (run (pre ++ o :: mid) init).
 Proof. exact (thm_cancel_stops pre o a recv ref p mid c post). Qed.
 
-(** (d) REFUTED for Loop: after a stall of 250 ms the deliveries due at 100 and 200 are skipped and the
-    phase moves: 350, 450, 550 instead of 100, 200, ..., 500 *)
+(** REFUTED without [no_stall] (same known finding): after a stall of 250 ms the deliveries due at 100 and 200
+    are skipped and the phase moves: 350, 450, 550 instead of 100, 200, ..., 500 *)
 Theorem C20_loop_refuted_stall :
   map f_time (fired (run w_stall_loop init)) = [350; 450; 550] /\ now (run w_stall_loop init) = 550.
 Proof. exact wit_stall_loop. Qed.
 
-(** an interval <= 0 is accepted (nil) and makes the quartz loop spin; a later call is not modelled any more *)
-Theorem C20_loop_nonpositive_spins :
-  spin (run [OLoop w_a w_a w_r 0 1; OTick 0] init) = true /\
-  spin (run [OLoop w_a w_a w_r (-1000) 1; OTick 0] init) = true /\
-  run_res [OLoop w_a w_a w_r (-1000) 1; OTick 0; OOnce w_b w_b w_r 300 2] init = [ROk; RUnit; RSpin].
-Proof. exact wit_loop_nonpositive. Qed.
+(** an interval <= 0 is rejected: illegal argument, nothing changes; hence every queued SimpleTrigger has a
+    positive interval (the quartz loop cannot spin on one) *)
+Theorem C20_loop_nonpositive_rejected s a recv ref i p :
+  is_dead s a = false -> i <= 0 -> step (OLoop a recv ref i p) s = (s, RIllegalArg).
+Proof. exact (thm_loop_nonpositive_rejected s a recv ref i p). Qed.
 
-Theorem C20_no_spin ops : loops_positive ops -> spin (run ops init) = false.
-Proof. exact (no_spin ops). Qed.
+Theorem C20_queued_intervals_positive ops k j i :
+  tbl (run ops init) !! k = Some j -> j_trig j = TLoop i -> 0 < i.
+Proof. exact (thm_loops_positive ops k j i). Qed.
+
+(** ============================== references and keys ============================== *)
+
+(** job keys of different (actor, reference) pairs never coincide *)
+Theorem C20_keys_injective a1 r1 a2 r2 : job_key a1 r1 = job_key a2 r2 -> a1 = a2 /\ r1 = r2.
+Proof. exact (job_key_inj a1 r1 a2 r2). Qed.
+
+(** a scheduling call on a reference that is still queued does not return nil and changes nothing; any
+    scheduling call that does not return nil changes nothing *)
+Theorem C20_live_reference_rejected o a recv ref p s j :
+  is_sched o a recv ref p -> tbl s !! job_key a ref = Some j ->
+  fst (step o s) = s /\ snd (step o s) <> ROk.
+Proof. exact (thm_reuse_rejected o a recv ref p s j). Qed.
+
+Theorem C20_failed_call_changes_nothing o a recv ref p s :
+  is_sched o a recv ref p -> snd (step o s) <> ROk -> fst (step o s) = s.
+Proof. exact (thm_failed_call o a recv ref p s). Qed.
 
 (** ============================== Cron, Cancel ============================== *)
 
 (** an invalid expression: the parse error, and NOTHING changes (neither jobKeys nor the queue) *)
 Theorem C20_cron_invalid s a recv ref p :
-  spin s = false -> is_dead s a = false -> step (OCron a recv ref false p) s = (s, RParseErr).
+  is_dead s a = false -> step (OCron a recv ref false p) s = (s, RParseErr).
 Proof. exact (thm_cron_invalid s a recv ref p). Qed.
 
 (** Cancel of a reference jobKeys does not know: not-found, nothing changes *)
 Theorem C20_cancel_unknown s a ref :
-  spin s = false -> is_dead s a = false -> jk_of s a !! ref = None -> step (OCancel a ref) s = (s, RNotFound).
+  is_dead s a = false -> jk_of s a !! ref = None -> step (OCancel a ref) s = (s, RNotFound).
 Proof. exact (thm_cancel_unknown s a ref). Qed.
 
-(** but a Once that has fired stays in jobKeys: Exists says true, the first Cancel returns quartz's
-    "job not found" (not vivid's not-found), only the second one not-found *)
+(** but a Once that has fired stays in jobKeys (observation, code as it is): Exists says true, the first
+    Cancel returns quartz's "job not found" (not vivid's not-found), only the second one not-found *)
 Theorem C20_fired_once_stays_known :
   run_res w_stale init = [ROk; RUnit; RBool true; RQuartzNotFound; RNotFound].
 Proof. exact wit_stale. Qed.
@@ -166,7 +152,7 @@ Proof. exact wit_stale. Qed.
 (** whatever a job tells carries the scheduled message to the scheduled receiver (SchedulerMessage wrapping
     and onScheduler unwrapping are the identity on the payload); a dead letter only if the receiver is dead *)
 Theorem C20_payload pre o a recv ref p post f :
-  is_sched o a recv ref p -> spin (run pre init) = false -> a ∉ dead (run pre init) ->
+  is_sched o a recv ref p -> snd (step o (run pre init)) = ROk ->
   In f (fires_of (nid (run pre init)) (run (pre ++ o :: post) init)) ->
   f_owner f = a /\ f_recv f = recv /\ f_ref f = ref /\ f_payload f = p /\
   (f_dead f = true -> recv ∈ dead (run (pre ++ o :: post) init)).
@@ -174,7 +160,7 @@ Proof. exact (thm_payload pre o a recv ref p post f). Qed.
 
 (** ============================== death and restart ============================== *)
 
-(** (c) every queued job is registered: its key is path:reference of its owner, the owner's jobKeys maps the
+(** every queued job is registered: its key is (path, reference) of its owner, the owner's jobKeys maps the
     reference to that key, and the owner is alive. Hence Clear reaches every job of the actor: a job cannot
     survive its owner through a lost jobKeys entry *)
 Theorem C20_jobs_are_registered ops k j :
@@ -191,83 +177,91 @@ Proof. exact (thm_death ops a). Qed.
 
 (** everything a job of the actor ever tells was told before the actor died *)
 Theorem C20_death_no_fire pre (a : bytes) post f :
-  spin (run pre init) = false ->
   In f (fired (run (pre ++ ODied a :: post) init)) -> f_owner f = a -> In f (fired (run pre init)).
 Proof. exact (thm_death_no_fire pre a post f). Qed.
 
 Theorem C20_restart pre (a : bytes) :
-  spin (run pre init) = false -> a ∉ dead (run pre init) ->
+  a ∉ dead (run pre init) ->
   (forall k j, tbl (run (pre ++ [ORestarted a]) init) !! k = Some j -> j_owner j <> a) /\
   jk_of (run (pre ++ [ORestarted a]) init) a = ∅.
 Proof. exact (thm_restart pre a). Qed.
 
 (** ============================== non-vacuity ============================== *)
 
-(** hypotheses of C20_once_delivered_partial / C20_payload: /b schedules a Once while /a has a Loop and a
-    colliding-looking but different key is cancelled by /a; ticks, another actor's Clear and death in between *)
-Example C20_once_delivered_example :
+(** hypotheses of C20_once / C20_payload: /b schedules a Once while /a has a Loop to /b; in between: ticks, /a:b
+    uses the formerly colliding reference, /a cancels, clears and dies, a rejected re-use of /b's own live reference *)
+Example C20_once_example :
   let pre := [OLoop w_a w_b w_r 70 7; OTick 100] in
-  let post1 := [OTick 30; OOnce w_a w_a w_c 10 9; OCancel w_a w_c; OClear w_a; OTick 30; ODied w_a] in
-  spin (run pre init) = false /\ w_b ∉ dead (run pre init) /\
-  tbl (run pre init) !! job_key w_b w_r = None /\ 0 <= 100 /\
-  no_stall post1 /\ Forall (fun o => ~ touches (job_key w_b w_r) o) post1 /\
+  let post1 := [OTick 30; OOnce w_ab w_ab w_c 10 9; OOnce w_a w_a w_bc 10 8; OCancel w_a w_bc; OClear w_a; OOnce w_b w_b w_r 5 6; OTick 30; ODied w_a] in
+  snd (step (OOnce w_b w_b w_r 100 5) (run pre init)) = ROk /\
+  no_stall post1 /\ Forall (fun o => ~ removes w_b w_r o) post1 /\
   100 <= elapsed post1 + Z.max 50 0 /\
-  spin (run (pre ++ OOnce w_b w_b w_r 100 5 :: post1 ++ OTick 50 :: [OTick 500]) init) = false /\
   map (fun f => (f_payload f, f_time f, f_dead f))
       (fires_of 1 (run (pre ++ OOnce w_b w_b w_r 100 5 :: post1 ++ OTick 50 :: [OTick 500]) init)) = [(5%N, 200, false)].
 Proof.
-  cbv zeta. split; [reflexivity|]. split; [vm_compute; set_solver|]. split; [reflexivity|]. split; [discriminate|].
-  split; [repeat constructor|]. split.
-  - repeat constructor; cbn; try tauto; try discriminate; intros (r & H); discriminate.
-  - split; [vm_compute; discriminate|]. split; reflexivity.
+  cbv zeta. split; [reflexivity|]. split; [repeat constructor|]. split.
+  - repeat constructor; intros [H|[H|[H|H]]]; discriminate.
+  - split; [vm_compute; discriminate|reflexivity].
 Qed.
 
 Example C20_loop_example :
-  let post := [OTick 250; OOnce w_b w_b w_r 10 2; OTick 100; OCancel w_b w_r; OTick 10] in
-  no_stall post /\ Forall (fun o => ~ touches (job_key w_a w_r) o) post /\
+  let post := [OTick 250; OOnce w_b w_b w_r 10 2; OTick 100; OCancel w_b w_r; OLoop w_a w_a w_r 30 3; OTick 10] in
+  snd (step (OLoop w_a w_a w_r 100 1) init) = ROk /\
+  no_stall post /\ Forall (fun o => ~ removes w_a w_r o) post /\
   map f_time (fires_of 0 (run (OLoop w_a w_a w_r 100 1 :: post) init)) = [100; 200; 300] /\
   grid 0 100 (Z.to_nat ((now (run (OLoop w_a w_a w_r 100 1 :: post) init) - 0) / 100)) = [100; 200; 300].
 Proof.
-  cbv zeta. split; [repeat constructor|]. split; [|split; reflexivity].
-  repeat constructor; cbn; try tauto; discriminate.
+  cbv zeta. split; [reflexivity|]. split; [repeat constructor|]. split; [|split; reflexivity].
+  repeat constructor; intros [H|[H|[H|H]]]; discriminate.
 Qed.
 
 (** hypotheses of C20_once_cancelled / C20_cancel_stops: 90 ms < 100 ms, then the owner restarts *)
 Example C20_cancelled_example :
+  snd (step (OOnce w_a w_a w_r 100 1) init) = ROk /\
   removes w_a w_r (ORestarted w_a) /\ elapsed [OTick 40; OStall 50] < 100 /\
   fired (run (OOnce w_a w_a w_r 100 1 :: [OTick 40; OStall 50] ++ ORestarted w_a :: [OTick 1000]) init) = [] /\
   is_sched (OLoop w_a w_a w_r 30 1) w_a w_a w_r 1 /\
   map f_time (fired (run (OLoop w_a w_a w_r 30 1 :: [OTick 100] ++ OCancel w_a w_r :: [OTick 1000]) init)) = [30; 60; 90].
 Proof.
-  split; [right; right; right; reflexivity|]. split; [reflexivity|]. split; [reflexivity|].
+  split; [reflexivity|]. split; [right; right; right; reflexivity|]. split; [reflexivity|]. split; [reflexivity|].
   split; [right; left; exists 30; reflexivity|reflexivity].
 Qed.
+
+(** the former weaknesses on the code as it is now: the keys "/a"+"b:c" and "/a:b"+"c" are different - /a:b's
+    Cancel leaves /a's job alone; a live reference cannot be scheduled again (quartz's error), after the job
+    is gone it can; negative delay, non-positive interval, empty reference are rejected *)
+Example C20_fixed_examples :
+  (run_res w_collision init = [ROk; ROk; ROk; RUnit] /\
+   map (fun f => (f_payload f, f_time f)) (fired (run w_collision init)) = [(1%N, 100)]) /\
+  (run_res w_reuse init = [ROk; RExists; RExists; RUnit; ROk; RUnit] /\
+   map (fun f => (f_payload f, f_time f)) (fired (run w_reuse init)) = [(1%N, 300); (4%N, 1050)]) /\
+  run_res [OOnce w_a w_a w_r (-1) 1; OLoop w_a w_a w_r 0 2; OLoop w_a w_a w_r (-1000) 3; OOnce w_a w_a [] 5 4; OOnce w_a w_a w_r 0 5;
+           OCron w_a w_a w_c false 6; OTick 10; ODump [w_a]] init
+  = [RIllegalArg; RIllegalArg; RIllegalArg; REmptyRef; ROk; RParseErr; RUnit; RDump [(w_a, [w_r])] []].
+Proof. exact (conj wit_no_collision (conj wit_reuse wit_rejected)). Qed.
 
 (** hypotheses of C20_death / C20_death_no_fire / C20_restart: an actor with a Loop and a Once dies *)
 Example C20_death_example :
   let pre := [OLoop w_a w_a w_r 50 1; OOnce w_a w_b w_c 500 2; OTick 120] in
-  spin (run pre init) = false /\ w_a ∈ dead (run (pre ++ [ODied w_a]) init) /\
+  w_a ∈ dead (run (pre ++ [ODied w_a]) init) /\ w_a ∉ dead (run pre init) /\
   map f_time (fired (run (pre ++ ODied w_a :: [OTick 5000]) init)) = [50; 100].
-Proof. cbv zeta. split; [reflexivity|]. split; [vm_compute; set_solver|reflexivity]. Qed.
-
-Example C20_loops_positive_example : loops_positive [OLoop w_a w_a w_r 1 1; OTick 5; OOnce w_a w_a w_c (-5) 2].
-Proof. repeat constructor. Qed.
+Proof. cbv zeta. split; [vm_compute; set_solver|]. split; [vm_compute; set_solver|reflexivity]. Qed.
 
 Print Assumptions C20_once_at_most_once.
 Print Assumptions C20_once_not_early.
 Print Assumptions C20_once_cancelled.
-Print Assumptions C20_once_delivered_partial.
-Print Assumptions C20_once_refuted_reuse.
-Print Assumptions C20_once_refuted_collision.
-Print Assumptions C20_loop_refuted_collision_death.
+Print Assumptions C20_once.
 Print Assumptions C20_once_refuted_stall.
-Print Assumptions C20_once_negative_delay_never_fires.
+Print Assumptions C20_once_negative_delay_rejected.
 Print Assumptions C20_loop_grid.
-Print Assumptions C20_loop_partial.
+Print Assumptions C20_loop.
 Print Assumptions C20_cancel_stops.
 Print Assumptions C20_loop_refuted_stall.
-Print Assumptions C20_loop_nonpositive_spins.
-Print Assumptions C20_no_spin.
+Print Assumptions C20_loop_nonpositive_rejected.
+Print Assumptions C20_queued_intervals_positive.
+Print Assumptions C20_keys_injective.
+Print Assumptions C20_live_reference_rejected.
+Print Assumptions C20_failed_call_changes_nothing.
 Print Assumptions C20_cron_invalid.
 Print Assumptions C20_cancel_unknown.
 Print Assumptions C20_fired_once_stays_known.
